@@ -7,6 +7,8 @@ CONSTANTS
   MaxAns = 4
   Bursts = {99, 100}
   FaultsOn = TRUE
+  Retries = 1
+  T0 = 1000000
 SPECIFICATION Spec
 INVARIANT HonestVerifies
 INVARIANT TamperRejected
